@@ -7,6 +7,7 @@
 //!   replay  <file>               re-run the counterexample stored in a replay file
 mod report;
 mod c10;
+mod c11;
 mod findings;
 
 use report::Report;
@@ -34,6 +35,8 @@ fn run_named(name: &str, tier: &str, seed: u64, standin: bool) -> String {
     let known = match (standin, name) {
         (true, "vclock_iter") => { c10::standin_vclock_iter(&mut r); true }
         (false, "c10") => { c10::search(&mut r, tier, seed); true }
+        (true, "gset_merge") => { c11::standin_gset_merge(&mut r); true }
+        (false, "c11") => { c11::search(&mut r, tier, seed); true }
         _ => false,
     };
     if !known {
@@ -56,6 +59,8 @@ fn replay_file(path: &str) -> String {
     r.want = Some((check.to_string(), input.to_string()));
     let known = match search {
         "c10" => { c10::search(&mut r, "thorough", 0); true }
+        "c11" => { c11::search(&mut r, "thorough", 0); true }
+        "gset_merge" => { c11::standin_gset_merge(&mut r); true }
         "vclock_iter" => { c10::standin_vclock_iter(&mut r); true }
         _ => false,
     };
